@@ -19,7 +19,7 @@ PRED_SIG = {
     "P01": ("GHHV", 0),
     "P07": ("TTT", 0),
     "P06": ("GHTT", 0), "P06S": ("T", 0), "P04": ("GHT", 0), "P05": ("GHTV", 0), "J05": ("GHTV", 0), "P09": ("GHTV", 0), "P02": ("T", 0), "P03": ("GT", 0),
-    "W08": ("", 0), "P15": ("", 0), "P17": ("", 0), "P16": ("", 0), "P13": ("", 0), "P13V": ("", 0), "P17D": ("", 0), "P18": ("GGTTUE", 0), "P18D": ("GGTTUE", 0), "P18F": ("G", 0),
+    "W08": ("", 0), "P15": ("", 0), "P17": ("", 0), "P16": ("", 0), "P13": ("", 0), "P11": ("GHTV", 0), "P13V": ("", 0), "P17D": ("", 0), "P18": ("GGTTUE", 0), "P18D": ("GGTTUE", 0), "P18F": ("G", 0),
 }
 for k, v in PRED_SIG.items(): corr.OPSIG[k] = v
 
@@ -599,6 +599,41 @@ PROPS["C13"] = dict(
     n=dict(quick=(25, 30), thorough=(300, 400)),
     assumptions=["model = hand-written Gallina mirror of the constructors / setters of SO2.h .. SGal3.h, Rn.h (Ctor.v: delegation to the coefficient-vector constructor and its MANIF_ASSERT, AngleAxis -> Quaternion, AngleAxis products, Quaternion(Matrix3), Rotation2D(M).angle()), of the accessors and of cast; tied to /repo by exact comparison over the rational scalar in BOTH build modes (NDEBUG and assertion-enabled)",
                  "theorems are over Coq's classical reals; Quaternion(Matrix3) and the SE_2(3) / SGal(3) accessors are covered by the correspondence and by the accessor predicate P13 on the implementation (exact with tolerance 1e-5 for oracle square roots, double 1e-6), the precision of cast<float> by P13 only"],
+)
+
+
+BUNDLES_QUICK = ["B[R1,SO3,SE2]", "B[SE23,R2,SO3]", "B[SO2,SE3,R5,SGal3]"]
+BUNDLES_ALL = BUNDLES_QUICK + ["B[SGal3,SO2,SO2,SE23]", "B[SE2]", "B[SE3,SE3]", "B[SO3,SGal3,R3,SE2,SE3]"]
+P11_PAIRS = ["inverse", "J_inverse block diagonal", "log", "J_log block diagonal", "compose", "J_compose_a block diagonal", "J_compose_b block diagonal",
+             "act", "J_act_m blocks", "J_act_v blocks", "adj block diagonal", "transform block diagonal", "exp", "J_exp block diagonal", "hat block diagonal",
+             "rjac", "ljac", "rjacinv", "ljacinv", "smallAdj", "between", "rplus", "rminus", "element<i>() aliases the i-th element's coefficients",
+             "hat(t) = sum t_i Generator(i)", "Vee(hat(t)) = t"]
+def c11_layouts(pid, P, tier, seed, log):
+    """thorough tier: the remaining layouts (compile-time instantiations, one harness binary each)"""
+    if tier != "thorough": return [], dict(layouts=BUNDLES_QUICK)
+    Q = dict(P); Q["groups"] = [b for b in BUNDLES_ALL if b not in BUNDLES_QUICK]; Q["extra"] = []
+    g = mkgen(pid, seed, 111)
+    cases = gen_corr_cases(g, Q, 6); res, be = corr.run_cases(cases); summ, dis = corr.summarize(res)
+    raw = [("build", dict(binary=n_), "harness %s does not build against the current tree: %s" % (n_, lg[-400:]), dict(binary=n_, log=lg[-3000:]), False) for n_, lg in be.items()]
+    for d_ in dis[:5]:
+        c = d_["case"]
+        raw.append(("corr", dict(group=c["group"], op=c["op"], _args=c["args"]), "correspondence %s.%s: impl %s / model %s" % (c["group"], c["op"], d_["impl"][:80], d_["model"][:80]),
+                    dict(kind="correspondence", case=corr.case_json(c), impl=d_["impl"][:3000], model=d_["model"][:3000]), True))
+    pv, st = eval_preds(Q, gen_pred_cases(g, Q, 10), log)
+    log("further layouts: %d cases, %d disagreements, %d predicate failures" % (len(cases), len(dis), len(pv)))
+    return raw + pv, dict(layouts=BUNDLES_ALL, further_layout_cases=len(cases))
+
+PROPS["C11"] = dict(
+    vfiles=["Properties_C11.v"], level="proof",
+    groups=BUNDLES_QUICK,
+    corr_ops=["Inverse", "Log", "Compose", "Act", "Adj", "Between", "Rplus", "Lplus", "Rminus", "Lminus", "Transform", "Identity", "Exp", "Hat", "Rjac", "Ljac", "Rjacinv", "Ljacinv",
+              "SmallAdj", "Generator", "Vee", "Bracket", "Inner", "InnerWeights", "TPlus", "TMinus", "IsApprox", "Cast"],
+    preds=[dict(op="P11", pairs=P11_PAIRS, qtol=0.0, dtol=0.0, dscale=lambda c: 1.0)],
+    extra=[c11_layouts],
+    n=dict(quick=(5, 12), thorough=(60, 120)),
+    assumptions=["model = scalar-generic Gallina mirror of impl/bundle/* for an ARBITRARY list of groups (coq/Bundle.v: compute_indices as the template recursion, element views, pack-expansion loops writing blocks at the table offsets); tied to /repo by exact comparison over the rational scalar of every Bundle operation on layouts chosen so that Dim, DoF, RepSize, transform size and algebra size differ at every position",
+                 "the layouts are compile-time instantiations: a fixed set (quick 3, thorough 7); the theorems are for every layout",
+                 "predicate P11 compares every Bundle operation with the element operations applied to standalone copies and placed at offsets recomputed in the harness, outputs pre-filled with sentinels (exact zeros must be written), exactly over the rational scalar and bit-for-bit in double"],
 )
 
 # ------------------------------------------------------------------ generic engine
